@@ -55,7 +55,8 @@ TyKey(ty) ==
     [] ty.t = "vec" -> "Vec[" \o TyKey(ty.e) \o "]"
     [] ty.t = "ref" -> "Ref[" \o TyKey(ty.e) \o "]"
     [] ty.t = "param" -> "?" \o ty.n
-    [] ty.t \in {"array", "fn", "dyn"} -> "?"
+    [] ty.t = "dyn" -> "dyn " \o ty.tr
+    [] ty.t \in {"array", "fn"} -> "?"
     [] OTHER -> ty.t
 
 \* type of a value, as far as trait dispatch needs it
@@ -69,6 +70,7 @@ TypeOfVal(v) ==
     [] v.k \in {"struct", "variant"} -> v.ty
     [] v.k = "tuple" -> [t |-> "tuple", ts |-> [i \in DOMAIN v.es |-> TypeOfVal(v.es[i])]]
     [] v.k \in {"vec", "ref"} -> v.ty
+    [] v.k = "dyn" -> [t |-> "dyn", tr |-> v.trait]
     [] OTHER -> [t |-> "?"]
 
 \* ---------------------------------------------------------------- patterns: [ok, env]
@@ -219,7 +221,8 @@ ApplyValue(c, vs, rest) ==
   ELSE Stop(VBad("call of a non-function value"))
 
 TraitDispatch(trait, m, vs, rest) ==
-  LET recv == IF vs[1].k = "dyn" THEN vs[1].v ELSE vs[1]
+  \* a trait object is opened only by a call of its own trait; for any other trait it is an ordinary value of type `dyn Tr`
+  LET recv == IF vs[1].k = "dyn" /\ vs[1].trait = trait THEN vs[1].v ELSE vs[1]
       key == ImplKey(trait, recv) IN
   IF key \in DOMAIN P.impls /\ m \in DOMAIN P.impls[key] THEN
        ApplyNamed(P.impls[key][m].fn, P.impls[key][m].targs, <<recv>> \o Tail(vs), rest)
